@@ -62,10 +62,39 @@ def adjacent_slices(rng, tier):
     return out
 
 
+def dedup_twice(rng, n):
+    """deduplicate -> (sort | selection | slice | calculation)* -> a projection that drops a column on which the
+    surviving rows still differ -> deduplicate: the second deduplication has work to do.  All columns are key columns,
+    so every deduplication is within the documented contract."""
+    a, b, c = K(1), K(2), K(3)
+    out = []
+    for _ in range(n):
+        cols = [a, b] if rng.random() < 0.6 else [a, b, c]
+        rows = [{x: rng.choice((0, 1)) if x == a else rng.choice((0, 1, 5, 6)) for x in cols} for _ in range(rng.choice([4, 5, 6]))]
+        p = ("un", ("dedup",), ("leaf", 1, ("it", 0), cols, rows))
+        for _k in range(rng.choice([0, 1, 2])):
+            kind = rng.choice(["sort", "sel", "slice", "calc"])
+            if kind == "sort":
+                p = ("un", ("sort", [(("ref", b), rng.random() < 0.5)]), p)
+            elif kind == "sel":
+                p = ("un", ("sel", ("cmp", "lt", ("ref", b), ("lit", 6))), p)
+            elif kind == "slice":
+                p = ("un", ("slice", 0, rng.choice([3, 4, None])), p)
+            else:
+                p = ("un", ("calc", K(7), ("add", ("ref", a), ("lit", 1))), p)
+                cols = cols + [K(7)] if K(7) not in cols else cols
+        keep = [a] if rng.random() < 0.7 else []
+        p = ("un", ("proj", keep), p)
+        p = ("un", ("dedup",), p)
+        out.append(p)
+    return out
+
+
 def make_cases(rng, tier):
     progs = []
     progs += exhaustive_programs(2 if tier == "quick" else 3)
     progs += adjacent_slices(rng, tier)
+    progs += dedup_twice(rng, 40 if tier == "quick" else 600)
     n = 500 if tier == "quick" else 20000
     for _ in range(n):
         p, _ = ip.gen_prog(rng, rng.choice([1, 2, 3, 4, 6, 8, 12]))
